@@ -502,7 +502,11 @@ static void final_checks(int ending, long mem0, int fds0, const char *fdlist0, i
 		/* the tag says in whose context a block was allocated, which for blocks made while a once-event or the loop
 		 * itself was the context is only a hint: when blocks of a released-but-unfinalized object type are reported
 		 * anyway, such blocks are folded into that report (alone, they are reported under their own key) */
-		{ int typed = 0; for (i = 0; i <= T__N; i++) if (i != T_ONCE && seen[i]) typed = 1; if (typed) { seen[T_ONCE] = 0; seen[T__N + 1] = 0; } }
+		{ int primary = 0;
+		  /* an unfinalized object accounts for at least three blocks (its struct, buffers / callback entry ...); one or
+		   * two stray blocks carrying another type's tag were merely allocated while that other object was the context */
+		  for (i = 0; i <= T__N; i++) if (i != T_ONCE && seen[i] >= 3) primary = 1;
+		  if (primary) for (i = 0; i <= T__N + 1; i++) if (i == T_ONCE || i == T__N + 1 || seen[i] < 3) seen[i] = 0; }
 		if (!quiet_run) {
 			for (i = 0; i <= T__N + 1; i++) if (seen[i]) {
 				char key[160];
